@@ -6,6 +6,7 @@ pub mod echo;
 pub mod err;
 pub mod sink;
 pub mod work;
+pub mod ws;
 
 use crate::plan::{ApiKind, ServerPlan};
 use crate::world::{Ev, World, NOCONN};
@@ -88,6 +89,15 @@ pub fn build_api(sp: &ServerPlan) -> ApiDescription<SimCtx> {
         ApiKind::Err | ApiKind::ErrVersioned => {
             work::register(&mut api);
             err::register(&mut api);
+        }
+        ApiKind::Ws => {
+            work::register(&mut api);
+            ws::register(&mut api);
+        }
+        ApiKind::All => {
+            work::register(&mut api);
+            echo::register(&mut api, false);
+            ws::register(&mut api);
         }
         ApiKind::Sink => {
             work::register(&mut api);
